@@ -30,7 +30,7 @@ theorem fail_cap_len (e : String) (t : Ideal) (hl : t.bits.length ≤ t.cap) :
 
 theorem op_spec_cap_len (o : Op) (hng : o.noGrow = true) (t : Ideal) (hl : t.bits.length ≤ t.cap) :
     (o.spec t).2.cap = t.cap ∧ (o.spec t).2.bits.length ≤ t.cap := by
-  cases o <;> simp only [Op.spec, Op.noGrow] at hng ⊢ <;> (repeat' split) <;>
+  cases o <;> simp only [Op.spec, Op.noGrow, writeUnary_spec_eq] at hng ⊢ <;> (repeat' split) <;>
     first
     | exact write_cap_len _ t hl
     | exact read_cap_len _ _ t hl
